@@ -1,5 +1,249 @@
 /-
-C03 — property theorems (stub: no theorem stated yet, so no obligation is counted).
+C03 — block caches are transparent.
+PROPERTY THEOREMS ONLY (model: Hts.Model.CachedReader; contract: Hts.Spec.CacheContract; proofs: Hts.Lemmas.CachedReader).
+
+Scope of the theorems: the sequential reader (`rd = 1`), every file whose members have positive size, every history
+of Seek / Read / ReadByte / Blocked / SetCache(new cache or nil) of any length, every cache that satisfies the
+contract (proved for LRU, Random and StatsRecorder around them in C14; FIFO does not satisfy it).
+The code variant is the one with repair C03-1 (`setBase` drops the previous data: `clearOnRebase = true`), with or
+without repair C03-2 (`peekGuard`).  For the unchanged tree (`Cfg.asIs`) the statements are false:
+`stale_block_witness` (LRU) and `fifo_witness`.  Read-ahead (`rd > 1`) is not covered by any theorem here: it is
+checked by the correspondence harness only, and has its own recorded finding.
 -/
+import Hts.Lemmas.CachedReader
+import Hts.Lemmas.CacheContract
+import Hts.Lemmas.CacheReadAhead
 namespace Hts.Props.C03
+open Hts.Model.Cache Hts.Spec.CacheContract Hts.Model.CachedReader
+
+variable {σ : Type}
+
+/-- the outputs of a whole run from `NewReader` (empty when `NewReader` or a call does not return normally) -/
+def outputs (cfg : Cfg) (o : CacheOps σ) (f : File) (ops : List (Op σ)) : Except Fault (List Out) :=
+  match newReader o cfg f with
+  | .error e => .error e
+  | .ok (r, e) =>
+    if e ≠ .none then .ok []
+    else match run cfg o f r ops with
+      | .error e => .error e
+      | .ok (_, outs) => .ok outs
+
+/-! ### cache_inv -/
+
+/-- **cache_inv**: after every history (including `SetCache` at arbitrary points) every cache entry `(k, id)`
+refers to an allocated block that is not the current block, whose base is `k` and whose data, header size and
+file offset are those of the member at `k`; block identities in the cache are pairwise distinct; the current
+block, if it claims to hold data, holds the member of its base. -/
+theorem cache_inv (o : CacheOps σ) (wf : σ → Prop) (ct : Contract o wf) (cfg : Cfg)
+    (hcfg : cfg.clearOnRebase = true) (f : File) (hf : FileOK f) (ops : List (Op σ))
+    (ok : ∀ op ∈ ops, OpOK o wf op) (r0 r : Reader σ) (outs : List Out)
+    (h0 : newReader o cfg f = .ok (r0, .none)) (hr : run cfg o f r0 ops = .ok (r, outs)) :
+    Inv o wf f r := by
+  have s0 : S o wf f r0 r0 := newReader_S hcfg h0
+  have h := run_sim ct hcfg hf ops ok s0
+  rcases h.cases with e1 | ⟨a, b, e1, _, r1⟩ | ⟨e, e1, _⟩
+  · rw [hr] at e1; cases e1
+  · rw [hr] at e1; cases e1; exact r1.2.w.invC
+  · rw [hr] at e1; cases e1
+
+/-! ### cached_refines_uncached -/
+
+/-- **cached_refines_uncached**: for every cache satisfying the contract, whatever the history, every call of
+the cached reader returns the same bytes, the same error class (nil / io.EOF / other) and the same LastChunk as
+the uncached reader running the same history without the SetCache calls. -/
+theorem cached_refines_uncached (o : CacheOps σ) (wf : σ → Prop) (ct : Contract o wf) (cfg : Cfg)
+    (hcfg : cfg.clearOnRebase = true) (f : File) (hf : FileOK f) (ops : List (Op σ))
+    (ok : ∀ op ∈ ops, OpOK o wf op) (outs : List Out)
+    (hr : outputs cfg o f ops = .ok outs) :
+    outputs cfg o f (ops.map Op.uncached) = .ok outs := by
+  unfold outputs at hr ⊢
+  cases h0 : newReader o cfg f with
+  | error e => rw [h0] at hr; cases hr
+  | ok v =>
+    obtain ⟨r0, e⟩ := v
+    rw [h0] at hr
+    simp only at hr ⊢
+    by_cases he : e = .none
+    · subst he
+      simp only [ne_eq, not_true_eq_false, if_false] at hr ⊢
+      have s0 : S o wf f r0 r0 := newReader_S hcfg h0
+      have h := run_sim ct hcfg hf ops ok s0
+      rcases h.cases with e1 | ⟨a, b, e1, e2, r1⟩ | ⟨e', e1, _⟩
+      · rw [e1] at hr; cases hr
+      · rw [e1] at hr
+        rw [e2]
+        obtain ⟨C1, o1⟩ := a
+        obtain ⟨U1, o2⟩ := b
+        simp only [Except.ok.injEq] at hr ⊢
+        rw [← hr]
+        exact r1.1.symm
+      · rw [e1] at hr; cases hr
+    · simp only [ne_eq, he, not_false_eq_true, if_true] at hr ⊢
+      exact hr
+
+/-- … and a cached run stops abnormally (a call that panics or never returns) only when the uncached run of
+the same history stops in the same way — or because the recorded choice of Random's victim was rejected,
+which is not a behaviour of the code -/
+theorem cached_faults_only_as_uncached (o : CacheOps σ) (wf : σ → Prop) (ct : Contract o wf) (cfg : Cfg)
+    (hcfg : cfg.clearOnRebase = true) (f : File) (hf : FileOK f) (ops : List (Op σ))
+    (ok : ∀ op ∈ ops, OpOK o wf op) (e : Fault)
+    (hr : outputs cfg o f ops = .error e) :
+    e = .badHint ∨ outputs cfg o f (ops.map Op.uncached) = .error e := by
+  unfold outputs at hr ⊢
+  cases h0 : newReader o cfg f with
+  | error e' => rw [h0] at hr; simp only at hr ⊢; exact Or.inr hr
+  | ok v =>
+    obtain ⟨r0, e0⟩ := v
+    rw [h0] at hr
+    simp only at hr ⊢
+    by_cases he : e0 = .none
+    · subst he
+      simp only [ne_eq, not_true_eq_false, if_false] at hr ⊢
+      have s0 : S o wf f r0 r0 := newReader_S hcfg h0
+      have h := run_sim ct hcfg hf ops ok s0
+      rcases h.cases with e1 | ⟨a, b, e1, e2, r1⟩ | ⟨e', e1, e2⟩
+      · rw [e1] at hr; simp only [Except.error.injEq] at hr; exact Or.inl hr.symm
+      · rw [e1] at hr; cases hr
+      · rw [e1] at hr
+        rw [e2]
+        simp only [Except.error.injEq] at hr ⊢
+        exact Or.inr hr
+    · simp only [ne_eq, he, not_false_eq_true, if_true] at hr
+      cases hr
+
+/-! ### instances -/
+
+theorem lru_setCache_ok (n : Int) (hn : 1 ≤ n) (hints : List Int) :
+    OpOK lruOps LCache.WF (.setCache (some (LCache.new n)) hints) := ⟨LCache.wf_new hn, rfl⟩
+
+theorem random_setCache_ok (n : Int) (hn : 1 ≤ n) (hints : List Int) :
+    OpOK randomOps RCache.WF (.setCache (some (RCache.new n)) hints) := ⟨RCache.wf_new hn, rfl⟩
+
+/-- LRU caches of any capacity ≥ 1, attached at any points of the history, are transparent -/
+theorem lru_transparent (cfg : Cfg) (hcfg : cfg.clearOnRebase = true) (f : File) (hf : FileOK f)
+    (ops : List (Op LCache)) (ok : ∀ op ∈ ops, OpOK lruOps LCache.WF op) (outs : List Out)
+    (hr : outputs cfg lruOps f ops = .ok outs) : outputs cfg lruOps f (ops.map Op.uncached) = .ok outs :=
+  cached_refines_uncached lruOps LCache.WF lru_contract cfg hcfg f hf ops ok outs hr
+
+/-- Random caches, for every sequence of victims the code can choose -/
+theorem random_transparent (cfg : Cfg) (hcfg : cfg.clearOnRebase = true) (f : File) (hf : FileOK f)
+    (ops : List (Op RCache)) (ok : ∀ op ∈ ops, OpOK randomOps RCache.WF op) (outs : List Out)
+    (hr : outputs cfg randomOps f ops = .ok outs) :
+    outputs cfg randomOps f (ops.map Op.uncached) = .ok outs :=
+  cached_refines_uncached randomOps RCache.WF random_contract cfg hcfg f hf ops ok outs hr
+
+/-- a StatsRecorder around any conforming cache -/
+theorem recorder_transparent (o : CacheOps σ) (wf : σ → Prop) (ct : Contract o wf) (cfg : Cfg)
+    (hcfg : cfg.clearOnRebase = true) (f : File) (hf : FileOK f) (ops : List (Op (σ × Stats)))
+    (ok : ∀ op ∈ ops, OpOK (recorderOps o) (fun s => wf s.1) op) (outs : List Out)
+    (hr : outputs cfg (recorderOps o) f ops = .ok outs) :
+    outputs cfg (recorderOps o) f (ops.map Op.uncached) = .ok outs :=
+  cached_refines_uncached (recorderOps o) _ (recorder_contract ct) cfg hcfg f hf ops ok outs hr
+
+/-! ### the unchanged tree: witnesses -/
+
+/-- members "AAAAAA" (0..35), "BBBBBB" (35..70), "CCCC" (70..106), no EOF marker -/
+def file3 : File := [⟨0, 35, [65, 65, 65, 65, 65, 65]⟩, ⟨35, 35, [66, 66, 66, 66, 66, 66]⟩, ⟨70, 36, [67, 67, 67, 67]⟩]
+
+theorem file3_ok : FileOK file3 := by
+  intro m hm
+  simp [file3] at hm
+  rcases hm with h | h | h <;> subst h <;> decide
+
+/-- what a run returns, for comparison by `decide` -/
+def bytesOf (x : Except Fault (List Out)) : List (List Nat × ErrClass) :=
+  match x with
+  | .ok outs => outs.map (fun o => (o.bytes, o.err))
+  | .error _ => []
+
+/-- SetCache(LRU(1)); Seek b1; Seek (b2,4); Read 1; Seek b0; Seek b2; Read 3; Read 3; Read 3 -/
+def staleOps : List (Op LCache) :=
+  [.setCache (some (LCache.new 1)) [], .seek 35 0, .seek 70 4, .read 1, .seek 0 0, .seek 70 0, .read 3, .read 3, .read 3]
+
+/-- full statement for the unchanged tree (FALSE: defect C03-1, repaired by fixes/C03-1) -/
+def lru_transparent_asIs_full : Prop :=
+  ∀ (f : File), FileOK f → ∀ (ops : List (Op LCache)), (∀ op ∈ ops, OpOK lruOps LCache.WF op) →
+    ∀ outs, outputs Cfg.asIs lruOps f ops = .ok outs → outputs Cfg.asIs lruOps f (ops.map Op.uncached) = .ok outs
+
+/-- on the unchanged tree the block recycled at the failed read past the last member keeps "CCCC", is cached
+under the end-of-file offset and is read again: cached "CCC","CCC","CC"+EOF, uncached "CCC","C"+EOF,""+EOF -/
+theorem stale_block_witness :
+    bytesOf (outputs Cfg.asIs lruOps file3 staleOps) ≠
+      bytesOf (outputs Cfg.asIs lruOps file3 (staleOps.map Op.uncached)) := by decide
+
+theorem lru_transparent_asIs_witness : ¬ lru_transparent_asIs_full := by
+  intro h
+  have hok : ∀ op ∈ staleOps, OpOK lruOps LCache.WF op := by
+    intro op hop
+    simp only [staleOps, List.mem_cons, List.mem_nil_iff, or_false] at hop
+    rcases hop with h1 | h1 | h1 | h1 | h1 | h1 | h1 | h1 | h1 <;> subst h1 <;>
+      first | exact lru_setCache_ok 1 (by decide) [] | trivial
+  cases hc : outputs Cfg.asIs lruOps file3 staleOps with
+  | error e => have : bytesOf (outputs Cfg.asIs lruOps file3 staleOps) ≠ [] := by decide
+               rw [hc] at this; exact this rfl
+  | ok outs =>
+    have := h file3 file3_ok staleOps hok outs hc
+    apply stale_block_witness
+    rw [hc, this]
+
+/-- with repair C03-1 the same history is transparent (instance of the theorem, checked by evaluation too) -/
+example : bytesOf (outputs Cfg.repaired lruOps file3 staleOps) =
+    bytesOf (outputs Cfg.repaired lruOps file3 (staleOps.map Op.uncached)) := by decide
+
+/-- SetCache(FIFO(2)); Read 2; Seek b1; Read 2; Seek b0; Read 6; Seek b2; Read 4; Seek (b0,1); Read 5 -/
+def fifoOpsHist : List (Op LCache) :=
+  [.setCache (some (LCache.new 2)) [], .read 2, .seek 35 0, .read 2, .seek 0 0, .read 6, .seek 70 0, .read 4,
+    .seek 0 1, .read 5]
+
+/-- FIFO on the unchanged tree: the last Read returns "CCC"+EOF instead of "AAAAA" -/
+theorem fifo_witness :
+    bytesOf (outputs Cfg.asIs fifoOps file3 fifoOpsHist) ≠
+      bytesOf (outputs Cfg.asIs fifoOps file3 (fifoOpsHist.map Op.uncached)) := by decide
+
+/-- with repair C03-2 (`cacheSwap` does not recycle a block the cache still Peeks) that history is transparent.
+A theorem for all histories with FIFO is NOT proved (FIFO does not satisfy the contract the proof uses);
+FIFO with the repaired reader is covered by the correspondence check only. -/
+theorem fifo_witness_repaired :
+    bytesOf (outputs Cfg.repaired fifoOps file3 fifoOpsHist) =
+      bytesOf (outputs Cfg.repaired fifoOps file3 (fifoOpsHist.map Op.uncached)) := by decide
+
+/-- the full statement for FIFO with the repaired reader: stated, NOT proved (no obligation is counted) -/
+def fifo_transparent_repaired_full : Prop :=
+  ∀ (f : File), FileOK f → ∀ (ops : List (Op LCache)), (∀ op ∈ ops, OpOK fifoOps LCache.WF op) →
+    ∀ outs, outputs Cfg.repaired fifoOps f ops = .ok outs →
+      outputs Cfg.repaired fifoOps f (ops.map Op.uncached) = .ok outs
+
+/-! ### read-ahead with a cache (rd > 1): the recorded finding, pinned on an abstract transition system
+
+No refinement theorem is claimed for `rd > 1` with a cache: the worker goroutine skips members the cache holds at the
+moment it `Peek`s, and nothing keeps them there until the consumer `Get`s them (DESIGN §6 #28).  The two reachable
+bad states of the abstraction in Hts.Lemmas.CacheReadAhead: -/
+
+/-- consumer discards cap(working) delivered members that are not the one it wants → `panic("bgzf: unexpected block")` -/
+theorem readahead_with_cache_unexpected_block_witness :
+    (Hts.Model.ReadAheadCache.run Hts.Model.ReadAheadCache.start
+      (Hts.Model.ReadAheadCache.schedule ++ [.consumerTake])).map (·.cpc) = some .panicked :=
+  Hts.Model.ReadAheadCache.unexpected_block_witness
+
+/-- consumer waiting on `working`, worker parked on `control`, no step enabled -/
+theorem readahead_with_cache_deadlock_witness :
+    ((Hts.Model.ReadAheadCache.run { Hts.Model.ReadAheadCache.start with rd := 3, decs := 2 }
+        Hts.Model.ReadAheadCache.schedule).map
+      (fun s => (s.cpc, s.wnext, s.working, Hts.Model.ReadAheadCache.stuck s))) =
+      some (.scanning 2 2, none, [], true) :=
+  Hts.Model.ReadAheadCache.deadlock_witness
+
+/-! ### non-vacuity -/
+
+/-- the hypotheses of `lru_transparent` hold for a history with cache hits and an eviction, and the run is `ok` -/
+example : ∃ outs, outputs Cfg.repaired lruOps file3 staleOps = .ok outs ∧ outs.length = 9 := by
+  cases h : outputs Cfg.repaired lruOps file3 staleOps with
+  | error e => have : bytesOf (outputs Cfg.repaired lruOps file3 staleOps) ≠ [] := by decide
+               rw [h] at this; exact absurd rfl this
+  | ok outs =>
+    refine ⟨outs, rfl, ?_⟩
+    have : (bytesOf (outputs Cfg.repaired lruOps file3 staleOps)).length = 9 := by decide
+    rw [h] at this
+    simpa [bytesOf] using this
+
 end Hts.Props.C03
